@@ -179,7 +179,15 @@ def make_algo(n_iter, n_burn=None, frac_=None, power=0.8, extra=None):
 def drive(run: Run, n_iter, nb, power, key):
     """Run the real _maximization_step for k = 1..n_iter on a stub model; return per-iteration records."""
     import torch
-    algo = make_algo(n_iter, n_burn=nb, frac_=None, power=power)
+    try:
+        algo = make_algo(n_iter, n_burn=nb, frac_=None, power=power)
+    except Exception as e:  # an explicit count with a legal power is an accepted configuration
+        run.fail(f"constructor-raises:{type(e).__name__}", f"explicit n_burn_in_iter={nb} (fraction None) refused: {type(e).__name__}: {e}",
+                 dict(n_iter=n_iter, n_burn_in_iter=nb, n_burn_in_iter_frac=None, burn_in_step_power=power))
+        return []
+    if algo.algo_parameters["n_burn_in_iter"] != nb:
+        run.fail("n-burn-explicit", "explicit n_burn_in_iter not honoured",
+                 dict(n_iter=n_iter, n_burn_in_iter=nb, frac=None, resolved=algo.algo_parameters["n_burn_in_iter"]))
     model = StubModel(torch, run.rng("stub", key))
     recs = []
     prev = None
@@ -284,6 +292,9 @@ def check(run: Run):
             refused = False
         except LeaspyAlgoInputError:
             refused = True
+        except Exception as e:
+            run.fail(f"guard-raises:{type(e).__name__}", f"burn_in_step_power={p}: {type(e).__name__}: {e}", dict(burn_in_step_power=p))
+            continue
         run.case(("guard", p), nontrivial=True)
         run.count("guard", "refused" if refused else "accepted")
         gcases.append(f"({coq_Q(p)}, {coq_bool(refused)})")
@@ -307,7 +318,12 @@ def check(run: Run):
     off_by_rounding = 0
     for n_iter in n_grid:
         for fr in fr_grid:
-            algo = make_algo(n_iter, n_burn=None, frac_=fr)
+            try:
+                algo = make_algo(n_iter, n_burn=None, frac_=fr)
+            except Exception as e:
+                run.fail(f"constructor-raises:{type(e).__name__}", f"n_burn_in_iter_frac={fr} refused: {type(e).__name__}: {e}",
+                         dict(n_iter=n_iter, n_burn_in_iter=None, n_burn_in_iter_frac=fr))
+                continue
             nb = algo.algo_parameters["n_burn_in_iter"]
             run.case(("nburn", n_iter, fr), nontrivial=0 < fr < 1)
             # exact-rational model applied to the float product the code computes (fl(frac*n) is itself a double)
@@ -318,11 +334,17 @@ def check(run: Run):
                 off_by_rounding += 1
             if not (frac(fr) * n_iter - 1 - frac(2) ** -40 * n_iter < nb <= frac(fr) * n_iter * (1 + frac(2) ** -52)):
                 run.fail("n-burn-fraction", "memory-less length is not the configured fraction of the iterations (beyond float rounding)", nmeta[-1])
-    for n_iter, nbx, fr in [(10, 3, 0.9), (10, 0, 0.9), (7, 7, None), (5, 9, None)]:
-        algo = make_algo(n_iter, n_burn=nbx, frac_=fr)
+    for n_iter, nbx, fr in [(10, 3, 0.9), (10, 0, 0.9), (7, 7, None), (5, 9, None), (10, 0, None), (10, 1, 0.0), (12, 0, 0.5)]:
         run.case(("nburn-explicit", n_iter, nbx, fr))
+        try:
+            algo = make_algo(n_iter, n_burn=nbx, frac_=fr)
+        except Exception as e:
+            run.fail(f"constructor-raises:{type(e).__name__}", f"explicit n_burn_in_iter={nbx} refused: {type(e).__name__}: {e}",
+                     dict(n_iter=n_iter, n_burn_in_iter=nbx, n_burn_in_iter_frac=fr))
+            continue
         if algo.algo_parameters["n_burn_in_iter"] != nbx:
-            run.fail("n-burn-explicit", "explicit n_burn_in_iter not honoured", dict(n_iter=n_iter, n_burn_in_iter=nbx, frac=fr))
+            run.fail("n-burn-explicit", "explicit n_burn_in_iter not honoured",
+                     dict(n_iter=n_iter, n_burn_in_iter=nbx, frac=fr, resolved=algo.algo_parameters["n_burn_in_iter"]))
     try:
         make_algo(10, n_burn=None, frac_=None)
         run.fail("n-burn-none", "(None, None) accepted", {})
